@@ -308,7 +308,23 @@ def _check_case(case, coll, coll_dir) -> Verdict:
             v.label(f"outcome:{sa['solutionType']}")
             same_in_c = sc is not None and sc["solutionType"] == sa["solutionType"] and sc["success"] == sa["success"]
             if (sa["success"], sa["solutionType"]) != (sb["success"], sb["solutionType"]):
-                if same_in_c:
+                # a deflagration whose velocity lies within the velocity allowance (2 errTol) of the top of its window
+                # and a runaway are the same answer to that accuracy: the pressure at the window top is zero within
+                # the tolerance.  (False alarm at seed 3 after the generator change of round 5: v = vJ - 1.6e-4 at
+                # s=100, RUNAWAY at s=1, 10 and at the default setting of both; errTol 3e-4.)
+                def _top(sol, hyd_):
+                    fd_ = hyd_.get("fastestDeflag")
+                    return min(hyd_["vJ"], fd_) if isinstance(fd_, float) else hyd_["vJ"]
+
+                pair = {sa["solutionType"]: (sa, ha), sb["solutionType"]: (sb, hb)}
+                at_top = False
+                if sa["success"] and sb["success"] and set(pair) == {"RUNAWAY", "DEFLAGRATION"}:
+                    sd, hd = pair["DEFLAGRATION"]
+                    at_top = sd["wallVelocity"] is not None and _top(sd, hd) - sd["wallVelocity"] <= 2 * cfg["errTol"]
+                if at_top:
+                    v.label("type-flip-at-window-top")
+                    v.discarded("solution type sits on a threshold (deflagration within 2 errTol of the window top vs runaway)")
+                elif same_in_c:
                     v.fail("wall", cls, f"solution type differs: {sa['solutionType']}/{sa['success']} at s=1 vs "
                                         f"{sb['solutionType']}/{sb['success']} at s={s:g} ({sb['message'][:80]})")
                 else:
